@@ -1,6 +1,7 @@
 package main
 
 import (
+	"errors"
 	"fmt"
 	"math"
 	"math/big"
@@ -37,7 +38,8 @@ func (b *bspec) expr() string {
 	panic("kind")
 }
 
-// construct through the real constructors; nil on error
+// construct through the real constructors; nil on error. A wrapper's constructor is called even when the layer below
+// could not be built: it is then handed a nil delegate and must fail (model: mkLimit none / mkJitter none).
 func (b *bspec) construct() retry.Backoff {
 	switch b.kind {
 	case 'F':
@@ -53,24 +55,51 @@ func (b *bspec) construct() retry.Backoff {
 			return r
 		}
 	case 'J':
-		in := b.inner.construct()
-		if in == nil {
-			return nil
-		}
-		if r, err := retry.NewJitterAddingBackoff(in, b.jlo, b.jhi); err == nil {
+		if r, err := retry.NewJitterAddingBackoff(b.inner.construct(), b.jlo, b.jhi); err == nil {
 			return r
 		}
 	case 'L':
-		in := b.inner.construct()
-		if in == nil {
-			return nil
-		}
-		if r, err := retry.NewAttemptLimitingBackoff(in, b.k); err == nil {
+		if r, err := retry.NewAttemptLimitingBackoff(b.inner.construct(), b.k); err == nil {
 			return r
 		}
 	}
 	return nil
 }
+
+// constructVia: route 'd' nests the constructors directly; route 'b' goes through the builder: BaseBackoff(base object,
+// or nil if the base is not constructible) followed by WithLimit / WithJitterBound (WithJitter for a symmetric band) in
+// the order of the layers, then Build. Both routes are asked from the model as the same expression (Retry.build = nesting).
+func (b *bspec) constructVia(route byte) retry.Backoff {
+	if route != 'b' {
+		return b.construct()
+	}
+	var layers []*bspec
+	x := b
+	for ; x.inner != nil; x = x.inner {
+		layers = append(layers, x)
+	}
+	bld := retry.NewBackoffBuilder().BaseBackoff(x.construct())
+	for i := len(layers) - 1; i >= 0; i-- {
+		switch l := layers[i]; {
+		case l.kind == 'L':
+			bld.WithLimit(l.k)
+		case fbits(l.jlo) == fbits(-l.jhi):
+			bld.WithJitter(l.jhi)
+		default:
+			bld.WithJitterBound(l.jlo, l.jhi)
+		}
+	}
+	r, err := bld.Build()
+	if err != nil {
+		return nil
+	}
+	if r2, err2 := bld.Build(); err2 != nil || (len(layers) == 0 && r2 != r) {
+		return nil // building twice from the same builder must give the same answer
+	}
+	return r
+}
+
+func genRoute() byte { return "ddb"[rng.Intn(3)] }
 
 // documented domain (explicit about NaN)
 func (b *bspec) inDomain() bool {
@@ -123,6 +152,7 @@ func wordsStr(ws []uint32) string {
 }
 
 // call NextDelayMillis with a scripted random source; returns delay, words consumed, ran out
+// A call that keeps drawing (a resampling loop that never ends) is cut off after drawLimit words beyond the script.
 func callNext(b retry.Backoff, n int, ws []uint32) (d int64, used int, ranOut bool) {
 	i := 0
 	fastrand.Next = func() uint32 {
@@ -133,11 +163,26 @@ func callNext(b retry.Backoff, n int, ws []uint32) (d int64, used int, ranOut bo
 		}
 		ranOut = true
 		i++
+		if i > len(ws)+drawLimit {
+			panic(errDrawLimit)
+		}
 		return 0
 	}
+	defer func() {
+		if p := recover(); p != nil {
+			if p != interface{}(errDrawLimit) {
+				panic(p)
+			}
+			d, used, ranOut = math.MinInt64, i, true
+		}
+	}()
 	d = b.NextDelayMillis(n)
 	return d, i, ranOut
 }
+
+const drawLimit = 256
+
+var errDrawLimit = errors.New("random source drawn without end")
 
 var rateEdges = []float64{-1, -0.5, math.Copysign(0, -1), 0, 0.5, 1, -0.2, 0.2, 0.3, math.Nextafter(-1, 0), math.Nextafter(1, 0),
 	math.SmallestNonzeroFloat64, -math.SmallestNonzeroFloat64, 1e-17, -1e-17, 0.999999, -0.999999}
@@ -363,26 +408,91 @@ func monitorStack(b *bspec, n int, ws []uint32, pw float64) string {
 	return ""
 }
 
+func wordsForU(u uint64, n int) []uint32 {
+	// randomInt64() = (w1 & 0x7FFFFFFF) << 32 | w2 and the helper uses u = randomInt64() >> 1
+	res := u<<1 | uint64(rng.Intn(2))
+	ws := genWords(n)
+	ws[0] = uint32(res>>32)&0x7FFFFFFF | uint32(rng.Intn(2))<<31
+	ws[1] = uint32(res)
+	return ws
+}
+
+// genBigBound: draws with bounds around 2^61, 2^62 and up to 2^63 - 1, and random words that put u = randomInt64()>>1 next
+// to the bound, to 0 and to 2^62 - 1. This is where the resampling loop of nextRandomInt64IncludingZero would be entered if
+// its test `u < result-mask` could be true (Lean: Retry.no_reject shows it cannot); the model executes the same loop (rejLoop),
+// so any variant of the test that does resample here shows up as a different delay / word count.
+func genBigBound() (*bspec, []uint32) {
+	small := func() int64 { return int64(rng.Intn(5)) - 2 }
+	var bound int64 // the argument of nextRandomInt64IncludingZero
+	switch rng.Intn(6) {
+	case 0:
+		bound = 1<<62 + 1 + int64(rng.Intn(1000))
+	case 1:
+		bound = 1<<62 + small()
+	case 2:
+		bound = 1<<61 + small()
+	case 3:
+		bound = math.MaxInt64 - 2 - int64(rng.Intn(1000))
+	case 4:
+		bound = 3<<60 + int64(rng.Intn(1<<30))
+	default:
+		bound = 1<<61 + rng.Int63n(3<<61-2)
+	}
+	var b *bspec
+	if rng.Intn(3) != 0 {
+		// random back-off: nextRandomInt64(hi-lo) = nextRandomInt64IncludingZero(hi-lo-1) + 1
+		lo := []int64{0, 1, 2, 1000}[rng.Intn(4)]
+		if lo > math.MaxInt64-bound-1 {
+			lo = 0
+		}
+		b = &bspec{kind: 'R', lo: lo, hi: lo + bound + 1}
+	} else {
+		// jitter band of width about `bound`: delay d with rates [-1/2, 1/2] (width d+1), [0,1] or [-1,0] (width d+1), [-1,1] (width 2d+1, wraps)
+		rates := [][2]float64{{-0.5, 0.5}, {0, 1}, {-1, 0}, {-1, 1}, {-0.25, 0.25}}[rng.Intn(5)]
+		d := bound
+		if rates[1]-rates[0] < 1 {
+			d = bound/2 + bound/4
+		}
+		b = &bspec{kind: 'J', jlo: rates[0], jhi: rates[1], inner: &bspec{kind: 'F', d: d}}
+	}
+	ub := uint64(bound)
+	targets := []uint64{ub - 1, ub, ub + 1, ub - 2, 1<<62 - 1, 1<<62 - 2, 0, 1, ub / 2, ub%(1<<62) + 1, (2 * ub) % (1 << 62), rng.Uint64()}
+	ws := wordsForU(targets[rng.Intn(len(targets))]%(1<<62), 8)
+	if rng.Intn(4) == 0 {
+		b = &bspec{kind: 'L', k: []int{1, 2, 64, math.MaxInt64}[rng.Intn(4)], inner: b}
+	}
+	return b, ws
+}
+
 func runRetry(count int) {
 	for i := 0; i < count; i++ {
 		b := genValidStack()
 		n := anyAttempt()
 		nRand := 0 // layers that may draw (two words each when they do)
+		var ws []uint32
+		if rng.Intn(8) == 0 {
+			b, ws = genBigBound()
+			stats["retry big-bound cases"]++
+		}
 		for x := b; x != nil; x = x.inner {
 			if x.kind == 'R' || x.kind == 'J' {
 				nRand++
 			}
 		}
-		ws := genWords(2*nRand + 6)
+		if ws == nil {
+			ws = genWords(2*nRand + 6)
+		}
 		base := b.base()
 		pw := 0.0
 		if base.kind == 'E' {
 			pw = math.Pow(base.mult, float64(n-1))
 		}
-		req := fmt.Sprintf("retry %s n %d pw %s ws %s", b.expr(), n, fbits(pw), wordsStr(ws))
-		obj := b.construct()
+		route := genRoute()
+		req := fmt.Sprintf("retry %s n %d pw %s ws %s via %c", b.expr(), n, fbits(pw), wordsStr(ws), route)
+		obj := b.constructVia(route)
+		stats["retry route "+string(route)]++
 		if obj == nil {
-			emit(req, "err", "FAIL C20 valid parameters rejected: "+b.expr())
+			emit(req, "err", "FAIL C05 valid parameters rejected (route "+string(route)+": d = constructors nested directly, b = BackoffBuilder.BaseBackoff + layers): "+b.expr())
 			continue
 		}
 		d, used, ranOut := callNext(obj, n, ws)
